@@ -140,7 +140,13 @@ def build(vacuity=False, only=None, interface=False):
         u.raw("}\n}\n")
     u.raw("} // verus!\n")
     u.raw(read_text("enums.rs"))
-    u.raw(read_text("traits.rs"))
+    traits = read_text("traits.rs")
+    if interface:
+        # assumption for callers: decoding is a function of the buffer contents
+        marker = "forall |p: Self, tail: Seq<u8>| old(buffer).rest() == #[trigger] p.enc_then(tail)"
+        assert marker in traits
+        traits = traits.replace("            " + marker, "            r == decode_of::<Self>(old(buffer).rest()), // @cl:assume.packet.read.deterministic\n            " + marker)
+    u.raw(traits)
     u.raw("verus! {\n")
 
     # reader
@@ -203,7 +209,7 @@ def build(vacuity=False, only=None, interface=False):
                 cid = f"C09.{pk}.id"
                 u.add_clause(vxlib.Clause(cid, "ensures", "id", ["C09"], f"{pk}.ID"))
                 u.raw(f"    // @fn-begin:{pk}.ID src={ex[pk + '.ID']['file']}:{ex[pk + '.ID']['line_start']}-{ex[pk + '.ID']['line_end']} mode=verify\n"
-                      f"    proof fn vx_id_check_{ty}()\n        ensures\n"
+                      f"    pub proof fn vx_id_check_{ty}()\n        ensures\n"
                       f"            <{ty} as Packet>::ID == <{ty} as WireSpec>::proto_id(), // @cl:{cid}\n    {{}}\n"
                       f"    // @fn-end:{pk}.ID\n")
                 u.fn_meta[f"{pk}.ID"] = {"file": ex[pk + ".ID"]["file"], "lines": [ex[pk + ".ID"]["line_start"], ex[pk + ".ID"]["line_end"]], "mode": "verify", "props": ["C09"], "loops": 0, "rules": {}}
